@@ -78,7 +78,7 @@ extern atomic_u64 *g_word; /* the tracked lock word */
 /* C03: once an exclusive section ended after the tracked pair was taken, the version differs from the tracked one
  * (inductive under the property's hypothesis that no earlier value is republished) */
 #if RG_HAS_VERSION
-#define RG_INV_VER(w) (G.commits >= G.tcommits && (G.commits == G.tcommits || T_VER(w) != G.tver))
+#define RG_INV_VER(w) (G.commits >= G.tcommits && G.commits <= (1UL << 62) && (G.commits == G.tcommits || T_VER(w) != G.tver))
 #else
 #define RG_INV_VER(w) 1
 #endif
@@ -105,22 +105,23 @@ static inline void rg_env(void)
   /* ASSUME[rely]: commits only grow; others change the version only by ending an exclusive section
    * (their G.version); while I hold any grant nobody else can hold X, hence no commit and no version change
    * (lemma rg_lemma_rely in the spec file) */
-  __CPROVER_assume(c >= G.commits);
+  __CPROVER_assume(c >= G.commits && c < (1UL << 62)); /* ASSUME[protocol c]: fewer than 2^62 exclusive sections in a run (ghost counter does not wrap) */
   __CPROVER_assume(T_VER(w) == T_VER(o) || c > G.commits);
   __CPROVER_assume(RG_MINE_NONE || (c == G.commits && T_VER(w) == T_VER(o)));
   /* ASSUME[rely]: if I hold X nobody else may touch the word at all */
   __CPROVER_assume(G.mX == 0 || w == o);
-  G.commits = c;
   /* the skolem section E of another thread may complete now -- only if it can be active next to what I hold;
    * ASSUME[rely, C08 induction]: a completing section publishes itself (obligation [C08][publish] of every function) */
   if(!G.E_done && nondet_bool())
   {
     __CPROVER_assume(!RG_E_CONFLICTS_MINE);
+    __CPROVER_assume(G.E_mode != RG_MODE_X || c > G.commits); /* an exclusive section that completes is a commit */
     G.E_done = 1;
     G.E_in_word = 1;
   }
   /* ASSUME[rely]: others preserve the invariant and never take away what I hold;
    * ASSUME[protocol c]: the shared counter never saturates (fewer than S_MAX simultaneous shared holders) */
+  G.commits = c;
   __CPROVER_assume(RG_INV(w) && T_S(w) < S_MAX);
   g_word->v = w;
 }
